@@ -110,6 +110,8 @@ pub struct SaleCfg {
     pub wl_stage_prices: Vec<u128>,
     /// denom of the whitelist created with the world (None = the factory denom)
     pub wl_denom: Option<String>,
+    /// chain clock at which the world is created (absolute nanoseconds); None = chain::new_app's default
+    pub clock: Option<u64>,
 }
 impl SaleCfg {
     pub fn basic(variant: usize) -> Self {
@@ -132,6 +134,7 @@ impl SaleCfg {
             start_trading: None,
             wl_stage_prices: vec![],
             wl_denom: None,
+            clock: None,
         }
     }
 }
@@ -210,6 +213,9 @@ impl SaleWorld {
     pub fn new(cfg: SaleCfg) -> Result<SaleWorld, String> {
         let v = VARIANTS[cfg.variant];
         let mut app = chain::new_app();
+        if let Some(c) = cfg.clock {
+            chain::set_time(&mut app, c);
+        }
         let t0 = chain::now(&app);
         let mut addrs = addr_ids();
         let mut denoms = denom_ids();
